@@ -51,6 +51,10 @@ type builder struct {
 	bits        map[string]int
 	nSpans      int
 	readers     int
+	autoOn      bool
+	forceTD     bool
+	racingUnreg bool // goroutines of one phase may Unregister the same Registration concurrently
+	bare        int  // scope index on whose meters no placeholder instrument is ever created (only instruments obtained directly from the SDK), -1: none
 	vis, loc    vset
 	cur         where
 }
@@ -90,13 +94,7 @@ func (b *builder) mk(k string) Op {
 		b.nProp++
 		return op
 	case "meter":
-		op := Op{K: k, D: len(b.meterScope), S: b.pick("scope", len(scopes)), Dir: true}
-		if hs := cat(b.vis.mprov, b.loc.mprov); len(hs) > 0 && rapid.Bool().Draw(b.t, "via_handle") {
-			op.Dir, op.U = false, b.from("mprov", hs)
-		}
-		b.loc.meter = append(b.loc.meter, op.D)
-		b.meterScope = append(b.meterScope, op.S)
-		return op
+		return b.mkMeter(b.pick("scope", len(scopes)))
 	case "tracer":
 		op := Op{K: k, D: len(b.tracerScope), S: b.pick("scope", len(scopes)), Dir: true}
 		if hs := cat(b.vis.tprov, b.loc.tprov); len(hs) > 0 && rapid.Bool().Draw(b.t, "via_handle") {
@@ -130,10 +128,12 @@ func (b *builder) mk(k string) Op {
 		if len(ts) == 0 {
 			return b.mk("tracer")
 		}
-		op := Op{K: k, U: b.from("tracer", ts), Sp: b.nSpans}
-		b.nSpans++
-		return op
+		return b.mkSpan(b.from("tracer", ts), ts)
 	case "reg":
+		if ms := cat(b.vis.meter, b.loc.meter); len(ms) > 0 && rapid.IntRange(0, 7).Draw(b.t, "no_instruments") == 0 {
+			// a callback registered without any instrument
+			return b.mkReg(b.from("meter", ms), nil, 0)
+		}
 		by := map[int][]int{}
 		var ms []int
 		for _, i := range cat(b.vis.inst, b.loc.inst) {
@@ -158,8 +158,10 @@ func (b *builder) mk(k string) Op {
 			}
 			ok := true
 			for _, u := range b.cbs[c].unregs {
-				// a second Unregister only when it is ordered after the first
-				if !(u.ph < b.cur.ph || u == b.cur) {
+				// a second Unregister is mostly ordered after the first; when the
+				// program allows it, two goroutines of one phase unregister the
+				// same Registration concurrently
+				if !(u.ph < b.cur.ph || u == b.cur) && !b.racingUnreg {
 					ok = false
 				}
 			}
@@ -192,6 +194,49 @@ func (b *builder) mk(k string) Op {
 		return Op{K: k, R: b.pick("reader", b.readers)}
 	}
 	return Op{K: k} // pause, set_*, self_*
+}
+
+// mkSpan: a span through tracer slot tr with generated start options; one in
+// three also starts a child span inside, through any visible tracer.
+func (b *builder) mkSpan(tr int, ts []int) Op {
+	op := Op{K: "span", U: tr, Sp: b.nSpans}
+	b.nSpans++
+	if rapid.Bool().Draw(b.t, "span_kind_option") {
+		op.Kn = rapid.IntRange(1, 5).Draw(b.t, "span_kind")
+	}
+	op.At = rapid.Bool().Draw(b.t, "span_attribute_option")
+	if !b.autoOn && (b.forceTD || rapid.IntRange(0, 5).Draw(b.t, "tracer_from_span") == 0) {
+		// a tracer obtained from the span's TracerProvider() (not generated
+		// while auto-instrumentation may be attached: the span would be the
+		// agent's and so would its provider)
+		op.TD, op.S = len(b.tracerScope)+1, b.pick("scope", len(scopes))
+		b.loc.tracer = append(b.loc.tracer, op.TD-1)
+		b.tracerScope = append(b.tracerScope, op.S)
+	}
+	if len(ts) > 0 && rapid.IntRange(0, 2).Draw(b.t, "child_span") == 0 {
+		op.In, op.CSp = b.from("child_tracer", ts)+1, b.nSpans
+		b.nSpans++
+	}
+	return op
+}
+
+func (b *builder) mkMeter(scope int) Op {
+	op := Op{K: "meter", D: len(b.meterScope), S: scope, Dir: true}
+	if hs := cat(b.vis.mprov, b.loc.mprov); len(hs) > 0 && rapid.Bool().Draw(b.t, "via_handle") {
+		op.Dir, op.U = false, b.from("mprov", hs)
+	}
+	b.loc.meter = append(b.loc.meter, op.D)
+	b.meterScope = append(b.meterScope, op.S)
+	return op
+}
+
+// otherScope draws a scope that is not the bare one.
+func (b *builder) otherScope() int {
+	s := b.pick("scope", len(scopes))
+	if s == b.bare {
+		s = (s + 1 + b.pick("scope_shift", len(scopes)-1)) % len(scopes)
+	}
+	return s
 }
 
 func (b *builder) mkUnreg(c int) Op {
@@ -245,11 +290,25 @@ func (b *builder) mkReg(m int, cand []int, n int) Op {
 // 1..3 a name the SDK refuses / 4 a name the refusing wrapper provider refuses.
 func (b *builder) mkInst(obs, m, bad int) Op {
 	if m < 0 {
-		ms := cat(b.vis.meter, b.loc.meter)
+		var ms []int
+		for _, x := range cat(b.vis.meter, b.loc.meter) {
+			// synchronous instruments are never created on a meter of the bare scope
+			if obs != 0 || b.meterScope[x] != b.bare {
+				ms = append(ms, x)
+			}
+		}
 		if len(ms) == 0 {
+			if obs == 0 {
+				return b.mkMeter(b.otherScope())
+			}
 			return b.mk("meter")
 		}
 		m = b.from("meter", ms)
+	}
+	native := false
+	if b.meterScope[m] == b.bare {
+		// only instruments obtained directly from the SDK on this scope
+		obs, native = 1, true
 	}
 	var ks []int
 	for k, d := range kinds {
@@ -259,6 +318,13 @@ func (b *builder) mkInst(obs, m, bad int) Op {
 	}
 	kd := b.from("kind", ks)
 	op := Op{K: "inst", D: len(b.insts), U: m, Kd: kd, N: b.pick("name", 2)}
+	if !native && kinds[kd].obs && bad < 0 && rapid.IntRange(0, 5).Draw(b.t, "native") == 0 {
+		native = true // a placeholder meter may be handed SDK instruments and placeholders side by side
+	}
+	if native {
+		op.Nat = true
+		bad = 0
+	}
 	if bad < 0 {
 		bad = 0
 		switch rapid.IntRange(0, 11).Draw(b.t, "bad_name") {
@@ -273,7 +339,7 @@ func (b *builder) mkInst(obs, m, bad int) Op {
 	} else {
 		op.Bad = bad
 	}
-	if op.Bad == 0 && kinds[kd].obs && rapid.IntRange(0, 2).Draw(b.t, "option_callback") == 0 {
+	if op.Bad == 0 && !op.Nat && kinds[kd].obs && rapid.IntRange(0, 2).Draw(b.t, "option_callback") == 0 {
 		op.OC, op.CB = true, len(b.cbs)
 		b.cbs = append(b.cbs, gCB{meter: m, insts: []int{op.D}, opt: true})
 		b.loc.cb = append(b.loc.cb, op.CB)
@@ -341,6 +407,15 @@ func gen(t *rapid.T) Case {
 	if c.AutoOn {
 		c.AutoOff = rapid.SampledFrom([]int{1, 1, 2, 3, 9, 9}).Draw(t, "auto_off_before_phase")
 	}
+	if !c.Wrap {
+		c.Rec = rapid.Bool().Draw(t, "counting_wrapper")
+	}
+	b.racingUnreg = rapid.IntRange(0, 2).Draw(t, "racing_unregister") == 0
+	b.bare = -1
+	if rapid.Bool().Draw(t, "bare_scope") {
+		b.bare = rapid.IntRange(0, len(scopes)-1).Draw(t, "bare")
+	}
+	b.autoOn = c.AutoOn
 	b.readers = c.Readers
 	storm := rapid.IntRange(0, 9).Draw(t, "storm") < 5
 	var stormCBs []int
@@ -360,10 +435,19 @@ func gen(t *rapid.T) Case {
 					ops = append(ops, b.mk("span"))
 				}
 			}
+			if g == 0 && !c.AutoOn && rapid.IntRange(0, 2).Draw(t, "tracer_from_placeholder_span") == 0 {
+				// a tracer obtained from the TracerProvider() of a span of a
+				// placeholder tracer
+				top := b.mk("tracer")
+				b.forceTD = true
+				sop := b.mkSpan(top.D, nil)
+				b.forceTD = false
+				ops = append(ops, top, sop)
+			}
 			if g == 0 && storm {
 				// one meter with many instruments (a long meter.setDelegate) and
 				// many registered callbacks
-				mop := b.mk("meter")
+				mop := b.mkMeter(b.otherScope())
 				ops = append(ops, mop)
 				ni := rapid.IntRange(2, 10).Draw(t, "storm_insts")
 				var obs []int
@@ -395,6 +479,26 @@ func gen(t *rapid.T) Case {
 						ops = append(ops, b.mkUnreg(rop.CB))
 					} else {
 						stormCBs = append(stormCBs, rop.CB)
+					}
+				}
+			}
+			if g == ng-1 && b.bare >= 0 {
+				// a meter that is only ever handed instruments obtained directly
+				// from the SDK (0-2 of them) and callbacks (with any subset of
+				// them, also none), some unregistered again
+				mop := b.mkMeter(b.bare)
+				ops = append(ops, mop)
+				var nat []int
+				for i, n := 0, rapid.IntRange(0, 2).Draw(t, "bare_insts"); i < n; i++ {
+					iop := b.mkInst(1, mop.D, 0)
+					ops = append(ops, iop)
+					nat = append(nat, iop.D)
+				}
+				for i, n := 0, rapid.IntRange(1, 3).Draw(t, "bare_cbs"); i < n; i++ {
+					rop := b.mkReg(mop.D, nat, rapid.IntRange(0, 2).Draw(t, "ninsts"))
+					ops = append(ops, rop)
+					if rapid.IntRange(0, 4).Draw(t, "unreg_before_install") == 0 {
+						ops = append(ops, b.mkUnreg(rop.CB))
 					}
 				}
 			}
@@ -432,6 +536,19 @@ func gen(t *rapid.T) Case {
 			}
 			ph = append(ph, ops)
 			merged.add(b.loc)
+			if b.racingUnreg {
+				// a second goroutine unregisters the same registrations
+				b.cur, b.loc = where{1, len(ph)}, vset{}
+				var ops2 []Op
+				for _, cb := range stormCBs {
+					if rapid.Bool().Draw(t, "also") {
+						op := b.mkUnreg(cb)
+						op.P = rapid.SampledFrom([]int{0, 0, 1, 1, 2, 2, 3}).Draw(t, "p")
+						ops2 = append(ops2, op)
+					}
+				}
+				ph = append(ph, ops2)
+			}
 		}
 		// installers: the same SDK object may be installed by several racing goroutines
 		place := func(kind string, prob int) {
@@ -481,8 +598,7 @@ func gen(t *rapid.T) Case {
 			}
 		}
 		for _, tr := range b.vis.tracer {
-			ops = append(ops, Op{K: "span", U: tr, Sp: b.nSpans})
-			b.nSpans++
+			ops = append(ops, b.mkSpan(tr, b.vis.tracer))
 		}
 		for _, p := range b.vis.prop {
 			ops = append(ops, Op{K: "inject", U: p})
